@@ -1209,7 +1209,71 @@ def r10(F, R):
         if need is None:
             raise Unverifiable(f"identifying fields of the look-up key {ka} are not tabled")
         check_tells_apart(F, R, cmp_, adt, ka, need, f"json/entry-tells-apart/{adt.rsplit('::', 1)[-1]}")
-    R.floor(1)
+    # entries looked up by an inline predicate (`elements.iter().position(|el| el.name == format!(..) && el.line == .. && el.type == ty)`): what the
+    # predicate compares a field with is built the same way as what the entry's constructor stores in that field — same sources, same text
+    # template, same (non-conversion) calls; a constructor that trims / re-formats the stored key is never found again by its own look-up
+    from .termtypes import Typer, _field_map
+    from . import deep as D
+    fm = _field_map(F)
+    n_k = 0
+    for lk in [b for b in F.crate_bodies() if b.name.startswith(JS) and b.kind in ("Fn", "AssocFn")]:
+        for s_, t in lk.calls(lambda t: callee_is(t, r"Iterator::(position|find|any)$")):
+            cl = A.closure_of_operand(F, lk, t["args"][1])
+            if cl is None or cl.arg_count < 2:
+                continue
+            ety = re.sub(r"^&(mut )?", "", re.sub(r"^&(mut )?", "", cl.locals[2].strip()).strip())
+            eadt = re.sub(r"<.*", "", ety)
+            if not eadt.startswith(JS) or F.adt(eadt) is None:
+                continue
+            ctors = [b for b in F.crate_bodies() if (b.impl or {}).get("self_adt") == eadt and not (b.impl or {}).get("trait") and b.kind in ("Fn", "AssocFn")
+                     and re.sub(r"<.*", "", b.locals[0]) in (eadt, "Self") and b.name.endswith("::new")]
+            if len(ctors) != 1:
+                continue
+            names = [f["name"] for f in F.adt(eadt)["variants"][0]["fields"]]
+
+            def sig(T_, t_):
+                consts = sorted({x[1] for x in D.subterms(t_) if isinstance(x, tuple) and len(x) == 2 and x[0] == "const" and isinstance(x[1], str)})
+                calls = sorted({re.sub(r"<[^<>]*(<[^<>]*>[^<>]*)*>", "", x[1]).rsplit("::", 1)[-1] for x in D.subterms(t_) if isinstance(x, tuple) and len(x) == 4 and x[0] == "call"
+                                and not _CONV.search(x[1]) and not re.search(r"must_use$|fmt::format$|Arguments::<.*>::new$|Arguments::new|Argument::<.*>::new_\w+$|Argument.*::new_\w+$", x[1])})
+                return (tuple(sorted(T_.roots(t_))), tuple(consts), tuple(calls))
+            dpc = D.Deep(F, cl, max_paths=400, opaque=r"trim_path$|to_kebab_case$")
+            Tc = Typer(F, cl, dpc)
+            cmp_sigs = {}
+            for p in dpc.run():
+                atoms = [a for a, o in p.conds] + ([p.ret] if isinstance(p.ret, tuple) else [])
+                for a in atoms:
+                    if not isinstance(a, tuple):
+                        continue
+                    if a[0] == "call" and re.search(r"::eq$", a[1]) and len(a[2]) == 2:
+                        x, y = a[2]
+                    elif a[0] == "bin" and a[1] == "Eq":
+                        x, y = a[2], a[3]
+                    else:
+                        continue
+                    for u, v in ((x, y), (y, x)):
+                        fld = [z for z in D.subterms(u) if isinstance(z, tuple) and len(z) == 3 and z[0] == "field" and z[1] in (("deref", ("arg", 2)), ("arg", 2)) and isinstance(z[2], int)]
+                        if fld and not D.mentions(v, lambda q: q == ("arg", 2)):
+                            cmp_sigs.setdefault(names[fld[0][2]], set()).add(sig(Tc, v))
+            if not cmp_sigs:
+                continue
+            dpk = D.Deep(F, ctors[0], max_paths=400, opaque=r"trim_path$|to_kebab_case$")
+            Tk = Typer(F, ctors[0], dpk)
+            ctor_sigs = {}
+            for p in dpk.run():
+                if D.is_variant(p.ret, eadt) and len(p.ret[3]) == len(names):
+                    for nme, v in zip(names, p.ret[3]):
+                        if nme in cmp_sigs:
+                            ctor_sigs.setdefault(nme, set()).add(sig(Tk, v))
+            for nme in sorted(cmp_sigs):
+                n_k += 1
+                R.check(ctor_sigs.get(nme) == cmp_sigs[nme], f"json/lookup-key-agrees/{eadt.rsplit('::', 1)[-1]}.{nme}", s_, "the look-up compares the field with what the constructor stores in it",
+                        f"`{eadt.rsplit('::', 1)[-1]}::new` stores `{nme}` built as {sorted(ctor_sigs.get(nme, []))[:2]} but `{lk.short.rsplit('::', 1)[-1]}` looks entries up by {sorted(cmp_sigs[nme])[:2]}: "
+                        f"where the two differ the entry just created is not found again and every event of the scenario pushes a new one")
+    if n_k:
+        R.ok("json/lookup-key-agrees/fields", None, f"{n_k} look-up key fields compared with their constructor")
+    else:
+        R.ok("json/lookup-key-agrees/fields", None, "no inline look-up predicate over json entries (the look-up is spelled another way): the agreement clause is not decided here")
+    R.floor(2)
 
 
 def r11(F, R):
